@@ -68,26 +68,30 @@ def printer_rows(ctx):
     ctx.fn(b)
     nt = {v['discr']: v['name'] for v in ctx.facts.adts['types::NumberType']['variants']}
     rows = {}
+    from ..facts import resolve_conds
+
+    def selected(bid):
+        """the NumberType variants under which the block runs: decisions on the item's type tag, also when it was copied into
+        the parameter of a helper that was moved out of print (resolved back to self.1), and for an or-pattern arm"""
+        cs = tuple((d, v) for (_, d, v) in b.conditions(bid))
+        try:
+            cs = tuple(resolve_conds(b, cs))
+        except Exception:
+            pass
+        sel = [v for d, v in cs if render(d).replace('$', '') in ('discr(self.1)', 'discr(self.#1)') and not isinstance(v, tuple) and 1 <= len(v) <= 2]
+        return [nt.get(x) for x in sorted(sel[-1])] if sel else []
     for bid, t in b.calls(r'fmt::rt::Argument::<.*>::new_\w+$|fmt::rt::Argument::new_\w+$'):
-        conds = [(render(d), v) for (_, d, v) in b.conditions(bid)]
-        sel = [v for d, v in conds if d == 'discr(self.1)' and not isinstance(v, tuple) and len(v) == 1]
-        if not sel:
-            continue
-        variant = nt.get(list(sel[-1])[0])
         fn = t['callee']['path'].rsplit('::', 1)[1]
         arg = strip(b.expr(t['args'][0]))
         cast_to = arg[2] if arg[0] == 'cast' else None
         src = render(arg[3]) if arg[0] == 'cast' else render(arg)
-        rows[variant] = {'fn': fn, 'cast': cast_to, 'src': src, 'loc': t['loc'], 'alt': None}
+        for variant in selected(bid):
+            rows[variant] = {'fn': fn, 'cast': cast_to, 'src': src, 'loc': t['loc'], 'alt': None}
     for bid, t in b.calls(r'fmt::Arguments::<.*>::new$|fmt::Arguments::new$'):
-        conds = [(render(d), v) for (_, d, v) in b.conditions(bid)]
-        sel = [v for d, v in conds if d == 'discr(self.1)' and not isinstance(v, tuple) and len(v) == 1]
-        if not sel:
-            continue
-        variant = nt.get(list(sel[-1])[0])
         tpl = strip(b.expr(t['args'][0]))
-        if variant in rows and tpl[0] == 'const':
-            rows[variant]['alt'] = template_alternate(tpl[3])
+        for variant in selected(bid):
+            if variant in rows and tpl[0] == 'const':
+                rows[variant]['alt'] = template_alternate(tpl[3])
     return b, rows
 
 
